@@ -85,10 +85,11 @@ func (g *gen) add(class, format string, data []byte) {
 	if len(data) > 65536 {
 		data = data[:65536]
 	}
-	// The extracted model measures the unread length in unary at every loop entry, so deep or
-	// wide WKB documents above 16 KiB cost it tens of seconds each: in the quick tier they are
-	// marked and the driver evaluates only the executable statement on them (thorough: compared).
-	if format == "wkb" && !g.thorough && len(data) > 16384 && (class == "deepnest" || class == "amplify") {
+	// The extracted models are slow on deep or wide documents above 16 KiB (the WKB model measures
+	// the unread length in unary at every loop entry: tens of seconds each): in the quick tier
+	// these are marked and the driver evaluates only the executable statement on them (thorough:
+	// compared with the models as well).
+	if !g.thorough && len(data) > 16384 && (class == "deepnest" || class == "amplify") {
 		class += "_big"
 	}
 	g.ins = append(g.ins, input{class: class, fmt: format, data: append([]byte(nil), data...)})
